@@ -45,8 +45,17 @@ PROPS = {
     "C14": dict(title="The three graph representations are interchangeable", level="other", bounded=["C14"], design="8/C14",
                 explanation="Conversions between accessor, latter map and adjacency matrix; leaf queries.",
                 technique="whole-view postconditions of the conversions + bounded exhaustive order-1 arc subsets"),
-    "C15": dict(title="String big-number arithmetic equals integer arithmetic", level="other", bounded=["C15"], design="8/C15",
-                explanation="calculus_* against integer arithmetic.",
+    "C15": dict(title="String big-number arithmetic equals integer arithmetic", level="proof", bounded=["C15"], design="8/C15",
+                proof=["dsw.operation.calculus_addition", "dsw.operation.calculus_subtraction", "dsw.operation.calculus_multiplication",
+                       "dsw.operation.calculus_division"],
+                explanation="Contracts on the four real calculus_* functions: for canon(number) and every operand digit (case-split 0..9; division 1..9; "
+                            "subtraction under dval(number) >= digit) the result is canonical and its value is the exact integer result; loop "
+                            "invariants over prefix values, ghost carry arrays, left-to-right induction as ghost loops; exception freedom of every "
+                            "int()/index/str() is part of the obligations.",
+                claim="Deductive: every obligation generated from the current source of calculus_addition/subtraction/multiplication/division "
+                      "is discharged by z3/cvc5 for digit strings of every length and all ten operand digits (no bound).",
+                note="Trusted: pyvc's encoding of Python (DESIGN 2); lemmas pv_store_frame, pv_leading_zeros (proved by pyvc as ghost-loop lemmas, "
+                     "see contracts/lemmas.py); bounded tier is an additional cross-reading, not part of the claim.",
                 technique="loop invariants over prefix values on the real calculus_* functions, VCs discharged by z3"),
     "C16": dict(title="Bit / number / DNA conversions are exact inverses", level="other", bounded=["C16"], design="8/C16",
                 explanation="bit_to_number/number_to_bit/dna_to_number/number_to_dna.",
